@@ -190,3 +190,18 @@ Lemma ex7_ctor_findings :
   /\ want15_to ex7 (VPtr ex7_v) = Some (VPtr (VStruct [("a", VInt 6); ("in", VStruct [("A", VInt 4); ("B", VInt 0)])]))
   /\ pair_guard15 (ps_env ex7) (ps_fuel ex7) (ps_jobs ex7) = false.
 Proof. vm_compute. repeat split; reflexivity. Qed.
+
+(* ex1 satisfies the hypotheses of C05_complete_claimed_partial (non-vacuity): the pair (UserID, UserId) *)
+From Shoot Require Import Proofs.MapperCompleteProofs.
+Lemma ex1_complete_hyps :
+  exists pr, prepare (job_of ex1 "T") = Some pr
+             /\ match_inj (p_tags (pr_src pr)) false (pr_s0 pr)
+             /\ f_name (src_at (pr_s0 pr) 3) = "UserID" /\ f_name (dst_at (pr_s0 pr) 3) = "UserId"
+             /\ can_name_match (src_at (pr_s0 pr) 3) (dst_at (pr_s0 pr) 3) (p_tags (pr_src pr)) false = true
+             /\ match_applicable (ps_env ex1) (f_ty (src_at (pr_s0 pr) 3)) (f_ty (dst_at (pr_s0 pr) 3)).
+Proof.
+  destruct (prepare (job_of ex1 "T")) as [pr|] eqn:E; [|vm_compute in E; discriminate].
+  exists pr. split; auto. vm_compute in E. inversion E; subst; clear E.
+  split; [apply match_inj_b_sound; vm_compute; reflexivity|].
+  vm_compute. repeat split; reflexivity.
+Qed.
